@@ -198,14 +198,14 @@ class GetImmoralities(Contract):
             return z3.BoolVal(False)
         mem = result.mem if result.mem is not None else empty_set(PairAA)
         p = fresh("p", PairAA)
-        f = self.expected(old["_E"], old["_nodes"])
+        f = self.expected(old["@E"], old["@nodes"])
         return z3.And(z3.ForAll([p], mem[p] == f(p)), graph_unchanged(args["self"], old))
 
     def inv0(self, ex, st, args, old, ghost):
         imm = st.env["immoralities"]
         mem = imm.mem if imm.mem is not None else empty_set(PairAA)
         p = fresh("p", PairAA)
-        f = self.expected(old["_E"], ghost["done"])
+        f = self.expected(old["@E"], ghost["done"])
         return z3.And(z3.ForAll([p], mem[p] == f(p)), graph_unchanged(args["self"], old))
 
     invariants = property(lambda self: {0: self.inv0})
@@ -259,7 +259,7 @@ class VStructures(Contract):
             return z3.BoolVal(False)
         mem = result.mem if result.mem is not None else empty_set(T)
         y = fresh("y", T)
-        P = VSP(ex, old["_E"])
+        P = VSP(ex, old["@E"])
         return z3.And(z3.ForAll([y], mem[y] == P(T.accessor(0, 0)(y), T.accessor(0, 1)(y))), graph_unchanged(args["dag"], old))
 
 
@@ -278,12 +278,12 @@ class IsIEquivalent(Contract):
         th = ex.lib.theory(ex)
         g, h = args["self"], args["model"]
         a = fresh("a", Atom)
-        return z3.And(wf_graph(g), wf_graph(h), th.acyclic(g.fields["_E"]), th.acyclic(h.fields["_E"]))
+        return z3.And(wf_graph(g), wf_graph(h), th.acyclic(g.fields["@E"]), th.acyclic(h.fields["@E"]))
 
     def post(self, ex, st, args, old, result):
         if not isinstance(result, Scalar):
             return z3.BoolVal(False)
-        E1, E2 = args["self"].fields["_E"], args["model"].fields["_E"]
+        E1, E2 = args["self"].fields["@E"], args["model"].fields["@E"]
         a, b, c = fresh("a", Atom), fresh("b", Atom), fresh("c", Atom)
         same_skel = z3.ForAll([a, b], z3.Or(E1[a, b], E1[b, a]) == z3.Or(E2[a, b], E2[b, a]))
         same_v = z3.ForAll([a, b, c], vstruct(E1, a, b, c) == vstruct(E2, a, b, c))
